@@ -344,8 +344,8 @@ def gramSchmidOrth( A, alignVec=None ):
         normCurVec = np.linalg.norm( curVec )
         normAlignVec = np.linalg.norm( alignVec )
         if np.isclose( np.dot( curVec, alignVec ) / ( normCurVec * normAlignVec ), 1.0 ):
-            B[ :, : dim - i ] = np.copy( A[ :, i: ] )
-            B[ :, i: ] = np.copy( A[ :, : dim - i ])
+            # alignVec replaces the i-th column: keep the other columns after it
+            B[ :, 1: ] = np.delete( A, i, axis=1 )
     
     B[ :, 0 ] = alignVec / np.linalg.norm( alignVec )
 
